@@ -61,8 +61,15 @@ public:
     header* p;
     U* v;
 
+    //! skip blocks that hold no element (a block emptied by pop stays linked)
+    void skip_empty_chunks() {
+      while (p && p->dbegin == p->dend)
+        p = p->next;
+    }
+
     bool init_thread() {
       p = thr < hd->size() ? hd->getRemote(thr)->first : 0;
+      skip_empty_chunks();
       v = p ? p->dbegin : 0;
       return p;
     }
@@ -78,6 +85,7 @@ public:
     bool advance_chunk() {
       if (p) {
         p = p->next;
+        skip_empty_chunks();
         v = p ? p->dbegin : 0;
       }
       return p;
@@ -249,9 +257,9 @@ public:
 
   bool empty() const {
     for (unsigned x = 0; x < heads.size(); ++x) {
-      header* h = heads.getRemote(x)->first;
-      if (h)
-        return false;
+      for (header* h = heads.getRemote(x)->first; h; h = h->next)
+        if (h->dbegin != h->dend)
+          return false;
     }
     return true;
   }
